@@ -34,6 +34,8 @@ ASSUMPTIONS = [
     'System.reset(force=True) after TDS initialisation is outside the domain (documented as unpredictable; it raises NotImplementedError)',
     'operation sequences track one model class at a time; parameters of other models are not altered inside a sequence, '
     'models whose base parameters (Sn, Vn, ...) are ExtParams are covered by the static stream only',
+    'a limiter that adjusts its limit parameter to the initial value during initialisation (allow_adjust) moves v away from vin*k on purpose; '
+    'a sequence ends where that happens (counted as ops_ended_limit_adjusted_by_init)',
     'dependent ConstServices are not recomputed by alter (not part of the statement); the oracle looks at the parameter arrays themselves',
 ]
 CORPUS = os.path.join(C.ROOT, 'corpus', 'c11')
@@ -56,7 +58,11 @@ def generate(ctx):
 # ------------------------------------------------------------------ helpers on the real system
 
 def quiet():
+    import warnings
+    import numpy as np
     import andes
+    warnings.simplefilter('ignore')
+    np.seterr(all='ignore')
     andes.config_logger(stream_level=50)
 
 
@@ -517,6 +523,11 @@ def run_spec(spec, fails):
             break
         if ext is None and ss.is_setup:
             ext = ext_cols(ss, mdl)
+        if k in 'PT' and any(list(d[pn].v) != before[pn][0] for pn in tracked):
+            # initialisation itself moved a parameter (a limiter adjusting its limit to the initial value,
+            # `allow_adjust`): documented behaviour outside the statement; the sequence ends before this op
+            fails.append(('_adjusted', k))
+            break
         done.append(op)
         obs.append(observe(ss, mdl, tracked, status, written))
         # ---------------- property oracle (independent of the model)
@@ -672,6 +683,9 @@ def check_specs(ctx, specs, with_model=True):
         if len(done) < len(spec['ops']):
             ctx.count('ops_skipped_not_applicable', len(spec['ops']) - len(done))
         for key, what in dict((k, w) for k, w in reversed(fails)).items():
+            if key == '_adjusted':
+                ctx.count('ops_ended_limit_adjusted_by_init')
+                continue
             ctx.oracle_fail(key, what, dict(spec, ops=done))
         lines.append(line)
         recs.append((spec, impl, done))
